@@ -31,12 +31,13 @@ CONST_BASE = dict(Keys={"a", "b"}, KeyCost=6, FootBase=5, RgCost=3, NCols=NCOLS,
 # TLC side
 # ----------------------------------------------------------------------------------------------
 
-def model_cfg(path, *, vals, maxops, kv, app, fail, meta, trunc_kv, trunc_app, restore, chunk_sizes=(1, 3),
+def model_cfg(path, *, vals, maxops, kv, app, fail, meta, trunc_kv, trunc_app, restore, chunk_sizes=(1, 3), restore_truncates=True,
               ncols=2, invariants=(), properties=(), spec="Spec", keys=("a", "b")):
     c = dict(CONST_BASE)
     c.update(Keys=set(keys), Vals=set(vals), NCols=ncols, ChunkSizes=set(chunk_sizes), MaxOps=maxops,
              MetaFileAllowed=meta, EnableKv=kv, EnableAppend=app, EnableFail=fail,
-             TruncateAfterKv=trunc_kv, TruncateAfterAppend=trunc_app, RestoreOnFailure=restore)
+             TruncateAfterKv=trunc_kv, TruncateAfterAppend=trunc_app, RestoreOnFailure=restore,
+             RestoreTruncates=restore_truncates)
     return T.write_cfg(path, spec=spec, constants=c, invariants=invariants, properties=properties,
                        check_deadlock=False)
 
@@ -196,12 +197,13 @@ def replay_history(args):
                     k = opr["k"]
                     bad = None
                     comp = None
+                    rp = 400 if opr.get("big") else ROWS_PER_RG      # "big": more bytes than the footer they overwrite
                     if opr["failg"] and opr.get("why", "encode") == "encode":
-                        bad = ((opr["failg"] - 1) * ROWS_PER_RG + 1, opr["failc"])
+                        bad = ((opr["failg"] - 1) * rp + 1, opr["failc"])
                     elif opr["failg"]:
                         comp = {"c%d" % c: ("NOSUCHCODEC" if c == opr["failc"] else None) for c in range(1, NCOLS + 1)}
-                    dfa = frame(pd, nrows, k * ROWS_PER_RG, bad)
-                    offs = [j * ROWS_PER_RG for j in range(max(k, 1))]
+                    dfa = frame(pd, nrows, k * rp, bad)
+                    offs = [j * rp for j in range(max(k, 1))]
                     fp.write(path, dfa, append=True, row_group_offsets=offs, open_with=rec.open_with, compression=comp)
             except BaseException as e:  # noqa
                 raised = e
@@ -223,7 +225,8 @@ def replay_history(args):
             elif opr["kind"] == "refuse":
                 sig["why"] = opr["why"]
             else:
-                sig.update(k=opr["k"], failc=opr["failc"], failg=opr["failg"], why=opr.get("why", "none"))
+                sig.update(k=opr["k"], failc=opr["failc"], failg=opr["failg"], why=opr.get("why", "none"),
+                           big=bool(opr.get("big")))
             if want_raise and raised is None:
                 info["viol"].append(dict(sig, what="no exception for an operation that must be refused"))
             if not want_raise and raised is not None:
